@@ -144,7 +144,7 @@ def work_list(ctx):
     W = []
     # cap: schedules enumerated per program set (all of them monitored); keep: how many of them are also compared
     # with the Coq model (the first half of `keep`, then every 29th); extra: random schedules added when capped
-    cap, keep, extra = ctx.n(700, 120000), ctx.n(700, 2500), ctx.n(150, 1500)
+    cap, keep, extra = ctx.n(700, 40000), ctx.n(700, 2500), ctx.n(150, 1500)
     E = lambda kind, progs: W.append(("enum", kind, progs, (cap, keep, extra, ctx.rng.randrange(10 ** 9))))  # noqa: E731
     # ---- condition-variable lock
     for progs in multisets(cond_thread_progs(2), 2):                     # all 2 threads x 2 cycles
